@@ -199,29 +199,34 @@ def readCount (line : Str) : Nat := natOf (extractInt .u64 (IStream.ofStr line))
 
 /-- cc:144-150: the three coordinates; a failed extraction leaves the previous value -/
 def readPos (v : Pos) (line : Str) : Pos :=
-  let r0 := extractFloat (IStream.ofStr line)
-  let r1 := extractFloat r0.2
-  let r2 := extractFloat r1.2
+  let r0 := extractFloat .f64 (IStream.ofStr line)
+  let r1 := extractFloat .f64 r0.2
+  let r2 := extractFloat .f64 r1.2
   (r0.1.getD v.1, r1.1.getD v.2.1, r2.1.getD v.2.2)
 
-def readVerts : Nat → RS → RS
-  | 0, st => st
-  | n + 1, st =>
-    let st := st.nextLine
-    let v := readPos st.v st.line
-    readVerts n { st with v := v, verts := v :: st.verts }
-
-/-- cc:179-195 -/
-def readEdges (nV : Nat) : Nat → Nat → RS → RS
+/-- the counted loops `for (i = 0; i < n; ++i) { …; if (…) return false; … }` of `readStream`:
+    `step i` is the body; the loop is left as soon as the body has set `err` -/
+def loopN (step : Nat → RS → RS) : Nat → Nat → RS → RS
   | 0, _, st => st
   | n + 1, i, st =>
-    let st := st.nextLine
-    let r1 := extractInt .u32 (IStream.ofStr st.line)
-    let r2 := extractInt .u32 r1.2
-    let a := natOf r1.1
-    let b := natOf r2.1
-    if nV ≤ a || nV ≤ b then st.fail (.badEdge i)
-    else readEdges nV n (i + 1) { st with edges := (a, b) :: st.edges }
+    let st' := step i st
+    if st'.err.isSome then st' else loopN step n (i + 1) st'
+
+/-- cc:142-151 -/
+def vertStep (_ : Nat) (st : RS) : RS :=
+  let st := st.nextLine
+  let v := readPos st.v st.line
+  { st with v := v, verts := v :: st.verts }
+
+/-- cc:179-195 -/
+def edgeStep (nV : Nat) (i : Nat) (st : RS) : RS :=
+  let st := st.nextLine
+  let r1 := extractInt .u32 (IStream.ofStr st.line)
+  let r2 := extractInt .u32 r1.2
+  let a := natOf r1.1
+  let b := natOf r2.1
+  if nV ≤ a || nV ≤ b then st.fail (.badEdge i)
+  else { st with edges := (a, b) :: st.edges }
 
 /-- cc:240-252 / 300-312: `val` indices, each `unsigned int v1 = 0; sstr >> v1; if (v1 >= bound) return false`;
     `acc` newest first -/
@@ -233,37 +238,33 @@ def readIdx (bound : Nat) : Nat → IStream → List Nat → Option (List Nat)
     if bound ≤ v then none else readIdx bound k r.2 (v :: acc)
 
 /-- cc:226-262; `edges` = the finished edge list -/
-def readFaces (cfg : Cfg) (edges : List (Nat × Nat)) (nHE : Nat) : Nat → Nat → RS → RS
-  | 0, _, st => st
-  | n + 1, i, st =>
-    let st := st.nextLine
-    let r := extractInt .u64 (IStream.ofStr st.line)
-    let val := natOf r.1
-    if val == 0 then st.fail (.zeroValence i)
-    else if cfg.lim < val then st.fail (.alloc val)
-    else match readIdx nHE val r.2 [] with
-      | none => st.fail (.badHalfedge i)
-      | some hes =>
-        match faceDec cfg edges hes with
-        | .accept l => readFaces cfg edges nHE n (i + 1) { st with faces := l :: st.faces }
-        | .reject => st.fail (.addFace i)
-        | .fault => { st with fault := true, err := some (.addFace i) }
+def faceStep (cfg : Cfg) (edges : List (Nat × Nat)) (nHE : Nat) (i : Nat) (st : RS) : RS :=
+  let st := st.nextLine
+  let r := extractInt .u64 (IStream.ofStr st.line)
+  let val := natOf r.1
+  if val == 0 then st.fail (.zeroValence i)
+  else if cfg.lim < val then st.fail (.alloc val)
+  else match readIdx nHE val r.2 [] with
+    | none => st.fail (.badHalfedge i)
+    | some hes =>
+      match faceDec cfg edges hes with
+      | .accept l => { st with faces := l :: st.faces }
+      | .reject => st.fail (.addFace i)
+      | .fault => { st with fault := true, err := some (.addFace i) }
 
 /-- cc:291-327; `faces` = the finished face list -/
-def readCells (cfg : Cfg) (faces : List (List Nat)) (nHF : Nat) : Nat → Nat → RS → RS
-  | 0, _, st => st
-  | n + 1, i, st =>
-    let st := st.nextLine
-    let r := extractInt .u64 (IStream.ofStr st.line)
-    let val := natOf r.1
-    if cfg.lim < val then st.fail (.alloc val)
-    else match readIdx nHF val r.2 [] with
-      | none => st.fail (.badHalfface i)
-      | some hfs =>
-        match cellDec cfg faces hfs with
-        | .accept l => readCells cfg faces nHF n (i + 1) { st with cells := l :: st.cells }
-        | .reject => st.fail (.addCell i)
-        | .fault => { st with fault := true, err := some (.addCell i) }
+def cellStep (cfg : Cfg) (faces : List (List Nat)) (nHF : Nat) (i : Nat) (st : RS) : RS :=
+  let st := st.nextLine
+  let r := extractInt .u64 (IStream.ofStr st.line)
+  let val := natOf r.1
+  if cfg.lim < val then st.fail (.alloc val)
+  else match readIdx nHF val r.2 [] with
+    | none => st.fail (.badHalfface i)
+    | some hfs =>
+      match cellDec cfg faces hfs with
+      | .accept l => { st with cells := l :: st.cells }
+      | .reject => st.fail (.addCell i)
+      | .fault => { st with fault := true, err := some (.addCell i) }
 
 /-! ### property values -/
 
@@ -285,7 +286,8 @@ def defaultVal : VT → Val
 def readSc (lim : Nat) (s : Sc) (old : Atom) (is : IStream) : Except Nat (Atom × IStream) :=
   match s with
   | .chr | .uchr => let r := extractChar is; .ok ((r.1.map Atom.chr).getD old, r.2)
-  | .f32 | .f64 => let r := extractFloat is; .ok ((r.1.map Atom.flt).getD old, r.2)
+  | .f32 => let r := extractFloat .f32 is; .ok ((r.1.map Atom.flt).getD old, r.2)
+  | .f64 => let r := extractFloat .f64 is; .ok ((r.1.map Atom.flt).getD old, r.2)
   | .str =>
     -- Serializers.cc:51-64
     let r1 := extractInt .u64 is
@@ -481,7 +483,7 @@ def sectHeader (cfg : Cfg) (input : Str) : RS :=
       let n := readCount st.line
       if cfg.lim < n then st.fail (.alloc n)
       else
-        let st := readVerts n { st with dV := n }
+        let st := loopN vertStep n 0 { st with dV := n }
         { st with verts := st.verts.reverse }
 
 /-- cc:157-207 -/
@@ -495,7 +497,7 @@ def sectEdges (cfg : Cfg) (st : RS) : RS :=
     let n := readCount st.line
     if cfg.lim < n then st.fail (.alloc n)
     else
-      let st := readEdges st.dV n 0 { st with dE := n }
+      let st := loopN (edgeStep st.dV) n 0 { st with dE := n }
       { st with edges := st.edges.reverse }
 
 def sectFaces (cfg : Cfg) (st : RS) : RS :=
@@ -508,7 +510,7 @@ def sectFaces (cfg : Cfg) (st : RS) : RS :=
     let n := readCount st.line
     if cfg.lim < n then st.fail (.alloc n)
     else
-      let st := readFaces cfg st.edges (2 * st.dE) n 0 { st with dF := n }
+      let st := loopN (faceStep cfg st.edges (2 * st.dE)) n 0 { st with dF := n }
       { st with faces := st.faces.reverse }
 
 def sectCells (cfg : Cfg) (st : RS) : RS :=
@@ -521,7 +523,7 @@ def sectCells (cfg : Cfg) (st : RS) : RS :=
     let n := readCount st.line
     if cfg.lim < n then st.fail (.alloc n)
     else
-      let st := readCells cfg st.faces (2 * st.dF) n 0 st
+      let st := loopN (cellStep cfg st.faces (2 * st.dF)) n 0 st
       { st with cells := st.cells.reverse }
 
 /-- the whole of `readStream` as a state transformer -/
